@@ -235,6 +235,32 @@ Proof.
     now apply (Hno h' r').
 Qed.
 
+(* a record created from a configuration is found again through every identifier of that
+   configuration - whatever protocol it belonged to, enabled or not *)
+Theorem created_found_by_own_identifiers c c2 st h st' :
+  handles_ok st -> sections_present -> NoDup (map sproto c) ->
+  get_settings c st = (Ok h, st') -> nth_error (heap st) h = None ->
+  all_identifiers c2 <> [] -> (forall i, In i (all_identifiers c2) -> In i (all_identifiers c)) ->
+  get_settings c2 st' = (Ok h, st').
+Proof.
+  intros HO P ND G N NE Sub. pose proof (get_spec c st) as S. rewrite G in S.
+  destruct S as [_ [(_ & _ & r & N' & _)|(-> & Hno & Hh & Hc & _)]]; [congruence|].
+  apply (lookup_stable c2 st' (cur st) (List.length (heap st)) [] (update_from_config c (default_rec sch))).
+  - assumption.
+  - rewrite Hh. rewrite nth_error_app2 by lia. now rewrite Nat.sub_diag.
+  - assert (X : exists i, In i (all_identifiers c2)).
+    { destruct (all_identifiers c2) as [|i l]; [congruence|]. exists i. now left. }
+    destruct X as [i Hi2].
+    exists i. split; [assumption|].
+    destruct (proj1 (all_identifiers_In c i) (Sub i Hi2)) as (s & Hs & E).
+    exists (sec_of (sproto s)). split; [apply sec_of_lookup|].
+    apply update_ids_complete; try assumption.
+    rewrite names_default_rec. apply P. apply sec_of_lookup.
+  - intros h' r' Hin Nh (i & Hi & Hr). unfold handles_ok in HO. rewrite Forall_forall in HO.
+    rewrite Hh in Nh. rewrite nth_error_app1 in Nh by now apply HO.
+    apply (Hno h' r' Hin Nh). exists i. split; [now apply Sub|assumption].
+Qed.
+
 (* ---- BaseConfig.apply ------------------------------------------------------------------------------ *)
 
 (* what a service holds after apply is its own value or the non-empty value stored for its
@@ -251,7 +277,7 @@ Proof.
 Qed.
 
 Theorem apply_only_own r c :
-  Forall2 (fun s s' => sproto s' = sproto s /\ sid s' = sid s
+  Forall2 (fun s s' => sproto s' = sproto s /\ sid s' = sid s /\ senabled s' = senabled s
                        /\ own_or_stored r "credentials" (sproto s) (screds s) (screds s')
                        /\ own_or_stored r "password" (sproto s) (spw s) (spw s'))
           c (apply_rec r c).
